@@ -1521,14 +1521,14 @@ pub fn run(a: &Args) {
             results.push((AnyCase::O(c), r));
         }
         let lits = literals();
-        let per_variant = if a.thorough() { 120 } else { 11 };
+        let per_variant = if a.thorough() { 100 } else { 13 };
         for _ in 0..per_variant {
             for variant in 0..6 {
                 let (c, r) = gen_case(&mut rng, variant, a.thorough(), &lits);
                 results.push((AnyCase::V(c), r));
             }
         }
-        let per_oe = if a.thorough() { 100 } else { 8 };
+        let per_oe = if a.thorough() { 80 } else { 10 };
         for _ in 0..per_oe {
             for variant in 0..3 {
                 let (c, r) = gen_oe(&mut rng, variant, a.thorough(), &lits);
